@@ -298,31 +298,32 @@ Section LoopSpec.
   Variable nn_oracle : list P -> list xf.
   Variable fac : xf -> list bool -> nat -> res (option (list xf)).
   Hypothesis nn_len : forall g, length (nn_oracle g) = length g.
-  Hypothesis fac_len : forall t m n fs, fac t m n = Ok (Some fs) -> length fs = n.
+  Variable cs : list (P * xf).
+  Hypothesis fac_len : forall t fs, fac t (mask_of cs t) (count_true (mask_of cs t)) = Ok (Some fs) -> length fs = count_true (mask_of cs t).
 
   (* the value the property assigns to cell i of the time point u *)
-  Definition value_at (cs : list (P * xf)) (u : xf) (fo : option (list xf)) (i : nat) : xf :=
+  Definition value_at (u : xf) (fo : option (list xf)) (i : nat) : xf :=
     let m := mask_of cs u in
     let k := rank m i in
     let nn := nth k (nn_oracle (select m (map fst cs))) XNaN in
     match fo with None => nn | Some fs => xf_mul (nth k fs XNaN) nn end.
 
-  Definition time_of (cs : list (P * xf)) (i : nat) : xf := nth i (map snd cs) XNaN.
+  Definition time_of (i : nat) : xf := nth i (map snd cs) XNaN.
 
-  Lemma mask_length (cs : list (P * xf)) u : length (mask_of cs u) = length cs.
+  Lemma mask_length u : length (mask_of cs u) = length cs.
   Proof. unfold mask_of. apply map_length. Qed.
 
-  Lemma mask_nth (cs : list (P * xf)) u i : nth i (mask_of cs u) false = xf_eqb (time_of cs i) u.
+  Lemma mask_nth u i : nth i (mask_of cs u) false = xf_eqb (time_of i) u.
   Proof.
-    unfold mask_of, time_of. revert i. induction cs as [|c cs IH]; intros [|i]; simpl; try reflexivity. apply IH.
+    unfold mask_of, time_of. revert i. clear fac_len. induction cs as [|c cs' IH]; intros [|i]; simpl; try reflexivity. apply IH.
   Qed.
 
-  Lemma step_ok cs acc t a1 :
+  Lemma step_ok acc t a1 :
     length acc = length cs -> step nn_oracle fac cs acc t = Ok a1 ->
     (2 <= count_true (mask_of cs t))%nat /\ length a1 = length cs /\
     exists fo, fac t (mask_of cs t) (count_true (mask_of cs t)) = Ok fo /\
       forall i, (i < length cs)%nat ->
-        nth i a1 XNaN = if nth i (mask_of cs t) false then value_at cs t fo i else nth i acc XNaN.
+        nth i a1 XNaN = if nth i (mask_of cs t) false then value_at t fo i else nth i acc XNaN.
   Proof.
     intros Hacc. unfold step.
     destruct (Nat.ltb_spec (count_true (mask_of cs t)) 2) as [Hc|Hc]; [discriminate|].
@@ -332,24 +333,24 @@ Section LoopSpec.
     assert (Hsel : length (nn_oracle (select (mask_of cs t) (map fst cs))) = count_true (mask_of cs t)).
     { rewrite nn_len. apply select_length. rewrite mask_length, map_length. reflexivity. }
     assert (Hsc : length (scaled fo (nn_oracle (select (mask_of cs t) (map fst cs)))) = count_true (mask_of cs t)).
-    { destruct fo as [fs|]; simpl; [|exact Hsel]. rewrite zip_with_length; [exact (fac_len _ _ _ _ Hf)|].
-      rewrite Hsel. exact (fac_len _ _ _ _ Hf). }
+    { destruct fo as [fs|]; simpl; [|exact Hsel]. rewrite zip_with_length; [exact (fac_len _ _ Hf)|].
+      rewrite Hsel. exact (fac_len _ _ Hf). }
     rewrite scatter_nth; [|rewrite mask_length; symmetry; exact Hacc|exact Hsc|rewrite Hacc; exact Hi].
     destruct (nth i (mask_of cs t) false) eqn:Hm; [|reflexivity].
     unfold value_at. pose proof (rank_lt_count _ _ Hm) as Hr.
     destruct fo as [fs|]; simpl; [|reflexivity].
-    apply nth_zip_with; [rewrite (fac_len _ _ _ _ Hf)|rewrite Hsel]; exact Hr.
+    apply nth_zip_with; [rewrite (fac_len _ _ Hf)|rewrite Hsel]; exact Hr.
   Qed.
 
-  Theorem loop_spec cs uts : forall init out,
+  Theorem loop_spec uts : forall init out,
     length init = length cs -> distinct uts ->
     loop nn_oracle fac cs uts init = Ok out ->
     length out = length cs
     /\ (forall u, In u uts ->
           (2 <= count_true (mask_of cs u))%nat /\
           exists fo, fac u (mask_of cs u) (count_true (mask_of cs u)) = Ok fo /\
-            forall i, (i < length cs)%nat -> xf_eqb (time_of cs i) u = true -> nth i out XNaN = value_at cs u fo i)
-    /\ (forall i, (i < length cs)%nat -> (forall u, In u uts -> xf_eqb (time_of cs i) u = false) ->
+            forall i, (i < length cs)%nat -> xf_eqb (time_of i) u = true -> nth i out XNaN = value_at u fo i)
+    /\ (forall i, (i < length cs)%nat -> (forall u, In u uts -> xf_eqb (time_of i) u = false) ->
           nth i out XNaN = nth i init XNaN).
   Proof.
     induction uts as [|t r IH]; intros init out Hlen Hd Hloop.
@@ -358,14 +359,14 @@ Section LoopSpec.
     - unfold loop in Hloop. simpl in Hloop.
       destruct (step nn_oracle fac cs init t) as [a1|e] eqn:Hs.
       2:{ rewrite fold_err in Hloop by reflexivity. discriminate. }
-      destruct (step_ok _ _ _ _ Hlen Hs) as [Hc [Hl1 [fo [Hf Hv]]]].
+      destruct (step_ok _ _ _ Hlen Hs) as [Hc [Hl1 [fo [Hf Hv]]]].
       destruct (IH a1 out Hl1 (distinct_tail _ _ Hd) Hloop) as [Ho [Hin Hout]].
       split; [exact Ho|]. split.
       + intros u [<-|Hu].
         * split; [exact Hc|]. exists fo. split; [exact Hf|]. intros i Hi Hm.
           rewrite Hout; [|exact Hi|].
           -- rewrite Hv by exact Hi. rewrite mask_nth, Hm. reflexivity.
-          -- intros u' Hu'. destruct (xf_eqb (time_of cs i) u') eqn:E; [|reflexivity].
+          -- intros u' Hu'. destruct (xf_eqb (time_of i) u') eqn:E; [|reflexivity].
              pose proof (xf_eqb_eucl _ _ _ Hm E) as C. rewrite (distinct_head _ _ _ Hd Hu') in C. discriminate.
         * exact (Hin u Hu).
       + intros i Hi Hno. rewrite Hout; [|exact Hi|intros u Hu; apply Hno; right; exact Hu].
@@ -374,7 +375,7 @@ Section LoopSpec.
 
   (* a time point with fewer than two cells is refused (ValueError when the factor computation itself cannot fail,
      e.g. without normalisation) *)
-  Theorem loop_singleton_refused (cs : list (P * xf)) uts init u :
+  Theorem loop_singleton_refused uts init u :
     In u uts -> (count_true (mask_of cs u) < 2)%nat ->
     (forall t m n, exists fo, fac t m n = Ok fo) ->
     loop nn_oracle fac cs uts init = Err ValueError.
@@ -389,3 +390,339 @@ Section LoopSpec.
       apply fold_err. reflexivity.
   Qed.
 End LoopSpec.
+
+(* ---------- with the contract of the neighbour search: the closest OTHER cell with the SAME time stamp ---------- *)
+Section NNContract.
+  Context {P : Type}.
+  Variable dP : P.
+  Variable dist : P -> P -> xf.
+  Variable le : xf -> xf -> Prop.
+  Variable nn_oracle : list P -> list xf.
+
+  Definition is_nn (g : list P) (k : nat) (v : xf) : Prop :=
+    (exists l, (l < length g)%nat /\ l <> k /\ v = dist (nth k g dP) (nth l g dP))
+    /\ (forall l, (l < length g)%nat -> l <> k -> le v (dist (nth k g dP) (nth l g dP))).
+  Hypothesis nn_contract : forall g k, (2 <= length g)%nat -> (k < length g)%nat -> is_nn g k (nth k (nn_oracle g) XNaN).
+
+  Variable cs : list (P * xf).
+  Definition point_of (i : nat) : P := nth i (map fst cs) dP.
+
+  Theorem group_nn_is_within_time_point u i :
+    (i < length cs)%nat -> xf_eqb (time_of cs i) u = true -> (2 <= count_true (mask_of cs u))%nat ->
+    let v := nth (rank (mask_of cs u) i) (nn_oracle (select (mask_of cs u) (map fst cs))) XNaN in
+    (exists j, (j < length cs)%nat /\ j <> i /\ xf_eqb (time_of cs j) u = true /\ v = dist (point_of i) (point_of j))
+    /\ (forall j, (j < length cs)%nat -> j <> i -> xf_eqb (time_of cs j) u = true -> le v (dist (point_of i) (point_of j))).
+  Proof.
+    intros Hi Hm Hc v.
+    set (m := mask_of cs u) in *. set (g := select m (map fst cs)) in *.
+    assert (Hml : length m = length (map fst cs)) by (unfold m; rewrite mask_length, map_length; reflexivity).
+    assert (Hg : length g = count_true m) by (apply select_length; exact Hml).
+    assert (Hmi : nth i m false = true) by (unfold m; rewrite mask_nth; exact Hm).
+    pose proof (rank_lt_count _ _ Hmi) as Hr.
+    destruct (nn_contract g (rank m i)) as [[l [Hl [Hlk Hv]]] Hmin]; [lia|lia|].
+    assert (Hpi : nth (rank m i) g dP = point_of i) by (apply select_nth_rank; assumption).
+    split.
+    - destruct (rank_surj m l) as [j [Hj [Hmj Hrj]]]; [lia|].
+      exists j. rewrite Hml, map_length in Hj. split; [exact Hj|]. split; [intros ->; apply Hlk; symmetry; exact Hrj|].
+      split; [unfold m in Hmj; rewrite mask_nth in Hmj; exact Hmj|].
+      unfold v. fold m g. rewrite Hv, Hpi, <- Hrj. f_equal. apply select_nth_rank; assumption.
+    - intros j Hj Hji Hmj.
+      assert (Hmj' : nth j m false = true) by (unfold m; rewrite mask_nth; exact Hmj).
+      pose proof (rank_lt_count _ _ Hmj') as Hrj.
+      specialize (Hmin (rank m j)). unfold v. fold m g.
+      pose proof (select_nth_rank m (map fst cs) j dP Hml Hmj') as Hpj. fold g in Hpj.
+      rewrite Hpi, Hpj in Hmin.
+      apply Hmin; [lia|]. intros E. apply Hji. eapply rank_inj; eassumption.
+  Qed.
+End NNContract.
+
+(* ---------- the generated _get_target_cell_count: which N_t a time point gets ---------- *)
+Lemma xf_truth_of_bool b : xf_truth (xf_of_bool b) = b.
+Proof. destruct b; reflexivity. Qed.
+
+Lemma target_bool b t av uv : py_parameters__get_target_cell_count (VBool b) t av uv = Ok av.
+Proof. reflexivity. Qed.
+
+Lemma target_dict l t av uv :
+  py_parameters__get_target_cell_count (VDict l) (VArr KF [] [t]) av uv
+  = match assoc_lookup (VFloat t) l with Some v => Ok v | None => Err KeyError end.
+Proof. reflexivity. Qed.
+
+Lemma find_index_spec (l : list xf) t : forall s j,
+  (j < length l)%nat -> (forall i, (i < j)%nat -> xf_eqb (nth i l XNaN) t = false) -> xf_eqb (nth j l XNaN) t = true ->
+  find_index (map (elem_val KF) l) (VArr KF [] [t]) s = Ok (VInt (s + Z.of_nat j)).
+Proof.
+  induction l as [|a l IH]; intros s j Hj Hbefore Hat; simpl in Hj; [lia|].
+  cbn [map find_index]. unfold py_eq. cbn [elem_val is_array orb arr_data as_num num_xf broadcast2 bind truthy].
+  rewrite xf_truth_of_bool.
+  destruct j as [|j].
+  - simpl in Hat. rewrite Hat. f_equal. f_equal. lia.
+  - pose proof (Hbefore 0%nat ltac:(lia)) as H0. simpl in H0. rewrite H0.
+    rewrite (IH (s + 1) j); [f_equal; f_equal; lia|lia| |exact Hat].
+    intros i Hi. apply (Hbefore (S i)). lia.
+Qed.
+
+(* position of a time point in the ascending list of unique times *)
+Lemma find_index_distinct uts j s :
+  distinct uts -> (j < length uts)%nat -> xf_isnan (nth j uts XNaN) = false ->
+  find_index (map (elem_val KF) uts) (VArr KF [] [nth j uts XNaN]) s = Ok (VInt (s + Z.of_nat j)).
+Proof.
+  intros Hd Hj Hn. apply find_index_spec; [exact Hj| |apply xf_eqb_refl; exact Hn].
+  intros i Hi. apply Hd; lia.
+Qed.
+
+(* list / tuple: the j-th entry for the j-th time point in ascending order *)
+Lemma target_list l uts k j av :
+  distinct uts -> (j < length uts)%nat -> xf_isnan (nth j uts XNaN) = false -> (j < length l)%nat ->
+  py_parameters__get_target_cell_count (VList l) (VArr KF [] [nth j uts XNaN]) av (VArr KF [k] uts)
+  = Ok (nth j l VNone).
+Proof.
+  intros Hd Hj Hn Hl. unfold py_parameters__get_target_cell_count.
+  cbn [bind bind2 cond py_isinstance existsb py_isinstance1 orb truthy np_tolist list_index].
+  rewrite (find_index_distinct uts j 0 Hd Hj Hn). cbn [bind Z.add].
+  unfold py_getitem_x, py_getitem, np_index1. cbn [as_num].
+  destruct (Z.ltb_spec (Z.of_nat j) 0); [lia|].
+  destruct (Z.leb_spec 0 (Z.of_nat j)); [|lia].
+  destruct (Z.ltb_spec (Z.of_nat j) (Z.of_nat (length l))); [|lia].
+  cbn [andb]. unfold nthZ. rewrite Nat2Z.id. reflexivity.
+Qed.
+
+(* JAX array: the j-th entry likewise *)
+Lemma target_array kd n d uts k j av :
+  distinct uts -> (j < length uts)%nat -> xf_isnan (nth j uts XNaN) = false -> (Z.of_nat j < n) ->
+  py_parameters__get_target_cell_count (VArr kd [n] d) (VArr KF [] [nth j uts XNaN]) av (VArr KF [k] uts)
+  = Ok (VArr kd [] [nth j d XNaN]).
+Proof.
+  intros Hd Hj Hn Hl. unfold py_parameters__get_target_cell_count.
+  cbn [bind bind2 cond py_isinstance existsb py_isinstance1 orb truthy np_tolist list_index].
+  rewrite (find_index_distinct uts j 0 Hd Hj Hn). cbn [bind Z.add].
+  unfold py_getitem_x, py_getitem, np_index1. cbn [as_num].
+  destruct (Z.ltb_spec (Z.of_nat j) 0); [lia|].
+  destruct (Z.leb_spec 0 (Z.of_nat j)); [|lia].
+  destruct (Z.ltb_spec (Z.of_nat j) n); [|lia].
+  cbn [andb]. unfold nthZ. rewrite Nat2Z.id. reflexivity.
+Qed.
+
+(* ---------- the factor: powf (n_t / N_t) (1 / d_i) ---------- *)
+Section Factor.
+  Variable powf : xf -> xf -> xf.
+
+  Lemma fac_of_off nz av uv d t m n : norm_on nz = false -> fac_of powf nz av uv d t m n = Ok None.
+  Proof. intros H. unfold fac_of. rewrite H. reflexivity. Qed.
+
+  Lemma fac_of_on nz av uv d t m n target Nt b es :
+    norm_on nz = true ->
+    py_parameters__get_target_cell_count nz (VArr KF [] [t]) av uv = Ok target ->
+    as_num target = Some Nt -> xf_div (xf_of_Z (Z.of_nat n)) (num_xf Nt) = Some b ->
+    exponents d m = Ok es ->
+    fac_of powf nz av uv d t m n = Ok (Some (map (powf b) es)).
+  Proof.
+    intros H1 H2 H3 H4 H5. unfold fac_of. rewrite H1, H2. cbn [bind]. unfold py_truediv.
+    unfold xf_of_Z at 1. cbn [as_num inject_Z Qnum]. rewrite H3. cbn [num_xf]. rewrite H4. cbn [bind].
+    rewrite H5. reflexivity.
+  Qed.
+
+  (* scalar d: every member of the group gets the exponent 1/d *)
+  Lemma exponents_scalar q m : Qeq_bool q 0 = false ->
+    exponents (VFloat (XFin q)) m = Ok (repeat (XFin (Qred (1 / q))) (count_true m)).
+  Proof.
+    intros H. unfold exponents. cbn [np_ndim_f as_num bind py_eq is_array orb scalar_eqb num_eqb Z.eqb truthy].
+    unfold py_truediv. cbn [as_num num_xf xf_of_Z xf_div inject_Z]. rewrite H. reflexivity.
+  Qed.
+
+  (* per-cell d: member k of the group gets 1/d_i of ITS cell *)
+  Lemma exponents_vector kd n dd m : exponents (VArr kd [n] dd) m = Ok (map xf_inv (select m dd)).
+  Proof. reflexivity. Qed.
+
+  Lemma exponents_length d m es : exponents d m = Ok es ->
+    (match d with VArr _ [_] dd => length dd = length m | _ => True end) -> length es = count_true m.
+  Proof.
+    unfold exponents. destruct (np_ndim_f d) as [nd|]; [|discriminate]. cbn [bind].
+    destruct (bind (py_eq nd (VInt 0)) truthy) as [[|]|]; cbn [bind]; try discriminate.
+    - destruct (py_truediv (VInt 1) d) as [[]|]; cbn [bind]; try discriminate.
+      intros H _. injection H as <-. apply repeat_length.
+    - destruct d; try discriminate. destruct shape as [|s [|]]; try discriminate.
+      intros H Hl. injection H as <-. rewrite map_length. apply select_length. symmetry. exact Hl.
+  Qed.
+
+  Lemma fac_of_length nz av uv d t m n fs :
+    fac_of powf nz av uv d t m n = Ok (Some fs) ->
+    (match d with VArr _ [_] dd => length dd = length m | _ => True end) -> length fs = count_true m.
+  Proof.
+    unfold fac_of. destruct (norm_on nz); [|discriminate].
+    destruct (py_parameters__get_target_cell_count nz (VArr KF [] [t]) av uv); [|discriminate]. cbn [bind].
+    destruct (py_truediv _ a) as [b|]; [|discriminate]. cbn [bind].
+    destruct (exponents d m) as [es|] eqn:He; [|discriminate]. cbn [bind].
+    destruct b; try discriminate. intros H Hl. injection H as <-. rewrite map_length.
+    eapply exponents_length; eassumption.
+  Qed.
+End Factor.
+
+(* ---------- validate_normalize_parameter ---------- *)
+Definition has_key (l : list (val * val)) (u : xf) : bool := existsb (fun kv => scalar_eqb (VFloat u) (fst kv)) l.
+
+Lemma listcomp_go_filter (f : val -> res val) (c : val -> res bool) (g : val -> val) (p : val -> bool) l :
+  (forall x, In x l -> f x = Ok (g x)) -> (forall x, In x l -> c x = Ok (p x)) ->
+  listcomp_go f c l = Ok (map g (filter p l)).
+Proof.
+  induction l as [|x l IH]; intros Hf Hc; [reflexivity|].
+  cbn [listcomp_go filter]. rewrite (Hc x (or_introl eq_refl)). cbn [bind].
+  rewrite IH; [|intros y Hy; apply Hf; right; exact Hy|intros y Hy; apply Hc; right; exact Hy].
+  destruct (p x); [rewrite (Hf x (or_introl eq_refl))|]; reflexivity.
+Qed.
+
+Lemma listcomp_missing l (uts : list xf) :
+  listcomp_go (fun t => Ok t) (fun t => cond (bind2 py_not_in (bind (Ok t) np_item) (Ok (VDict l))))
+    (map (fun x => VArr KF [] [x]) uts)
+  = Ok (map (fun x => VArr KF [] [x]) (filter (fun u => negb (has_key l u)) uts)).
+Proof.
+  rewrite (listcomp_go_filter _ _ (fun v => v)
+             (fun v => match v with VArr KF [] [u] => negb (has_key l u) | _ => false end)).
+  - rewrite map_id. f_equal. induction uts as [|u uts IH]; [reflexivity|].
+    cbn [map filter]. destruct (negb (has_key l u)); cbn [map]; rewrite IH; reflexivity.
+  - reflexivity.
+  - intros x Hx. apply in_map_iff in Hx. destruct Hx as [u [<- _]]. reflexivity.
+Qed.
+
+(* dict: refused exactly when a time point has no entry *)
+Lemma validate_normalize_dict l k uts :
+  py_parameter_validation_validate_normalize_parameter (VDict l) (VArr KF [k] uts)
+  = if forallb (has_key l) uts then Ok VNone else Err ValueError.
+Proof.
+  unfold py_parameter_validation_validate_normalize_parameter.
+  cbn [bind cond py_isinstance existsb py_isinstance1 orb truthy].
+  unfold py_listcomp. cbn [iter_items bind]. rewrite listcomp_missing. cbn [rmap bind cond truthy].
+  induction uts as [|u uts IH]; [reflexivity|].
+  cbn [filter forallb]. destruct (has_key l u); cbn [negb andb]; [exact IH|reflexivity].
+Qed.
+
+Lemma missing_key_refused_lemma l k uts u :
+  In u uts -> has_key l u = false ->
+  py_parameter_validation_validate_normalize_parameter (VDict l) (VArr KF [k] uts) = Err ValueError.
+Proof.
+  intros Hu Hk. rewrite validate_normalize_dict.
+  destruct (forallb (has_key l) uts) eqn:E; [|reflexivity].
+  rewrite forallb_forall in E. rewrite (E u Hu) in Hk. discriminate.
+Qed.
+
+(* list / JAX array: refused exactly when the length differs from the number of time points *)
+Lemma validate_normalize_list l k uts :
+  py_parameter_validation_validate_normalize_parameter (VList l) (VArr KF [k] uts)
+  = if Z.of_nat (length l) =? k then Ok VNone else Err ValueError.
+Proof.
+  unfold py_parameter_validation_validate_normalize_parameter.
+  cbn [bind bind2 cond py_isinstance existsb py_isinstance1 orb truthy and_then py_len py_ne is_array scalar_eqb as_num num_eqb].
+  destruct (Z.of_nat (length l) =? k); reflexivity.
+Qed.
+
+Lemma validate_normalize_array kd n d k uts :
+  py_parameter_validation_validate_normalize_parameter (VArr kd [n] d) (VArr KF [k] uts)
+  = if n =? k then Ok VNone else Err ValueError.
+Proof.
+  unfold py_parameter_validation_validate_normalize_parameter.
+  cbn [bind bind2 cond py_isinstance existsb py_isinstance1 orb truthy and_then py_len].
+  unfold py_ne. cbn [is_array orb scalar_eqb as_num num_eqb truthy bind].
+  destruct (n =? k); reflexivity.
+Qed.
+
+Lemma validate_normalize_flag nz uv : nz = VNone \/ (exists b, nz = VBool b) ->
+  py_parameter_validation_validate_normalize_parameter nz uv = Ok VNone.
+Proof. intros [->|[b ->]]; reflexivity. Qed.
+
+(* ---------- compute_average_cell_count: the predictor's n_obs ---------- *)
+Definition n_unique (dat : list xf) (n c : Z) : Z := Z.of_nat (length (sort_dedup (col_list dat n c (c - 1)))).
+
+Lemma average_head n c dat (rest : val -> val -> res val) :
+  1 <= c ->
+  bind (bind2 py_getitem_x (bind (Ok (VArr KF [n; c] dat)) np_shape) (Ok (VInt 0))) (fun n_cells =>
+  bind (bind (bind2 np_col (Ok (VArr KF [n; c] dat)) (Ok (VInt (-1)))) np_unique) (fun unique_times =>
+  bind (bind2 py_getitem_x (bind (Ok unique_times) np_shape) (Ok (VInt 0))) (fun n_unique_times =>
+  rest n_cells n_unique_times)))
+  = rest (VInt n) (VInt (n_unique dat n c)).
+Proof.
+  intros Hc. cbn [bind bind2 np_shape map py_getitem_x py_getitem np_index1 as_num Z.ltb length].
+  unfold nthZ. cbn [Z.to_nat nth Z.leb Z.ltb Z.compare Z.of_nat andb Pos.of_succ_nat Pos.succ].
+  unfold np_col. cbn [as_num].
+  destruct (Z.ltb_spec (-1) 0); [|lia].
+  destruct (Z.leb_spec 0 (-1 + c)); [|lia]. destruct (Z.ltb_spec (-1 + c) c); [|lia].
+  cbn [andb bind np_unique np_shape map py_getitem np_index1 as_num].
+  cbn [length Z.of_nat Z.ltb Z.leb Z.compare andb Pos.of_succ_nat Pos.succ]. unfold nthZ. cbn [Z.to_nat nth].
+  replace (-1 + c) with (c - 1) by lia. reflexivity.
+Qed.
+
+(* None / True / False: cells per time point *)
+Lemma average_count_flag n c dat nz :
+  1 <= c -> nz = VNone \/ (exists b, nz = VBool b) ->
+  py_parameters_compute_average_cell_count (VArr KF [n; c] dat) nz = py_truediv (VInt n) (VInt (n_unique dat n c)).
+Proof.
+  intros Hc Hnz. unfold py_parameters_compute_average_cell_count.
+  rewrite (average_head n c dat _ Hc).
+  destruct Hnz as [->|[b ->]]; reflexivity.
+Qed.
+
+(* dict: sum of the entries over the number of time points *)
+Lemma average_count_dict n c dat l :
+  1 <= c ->
+  py_parameters_compute_average_cell_count (VArr KF [n; c] dat) (VDict l)
+  = bind (py_sum (VList (map snd l))) (fun s => py_truediv s (VInt (n_unique dat n c))).
+Proof.
+  intros Hc. unfold py_parameters_compute_average_cell_count.
+  rewrite (average_head n c dat _ Hc). reflexivity.
+Qed.
+
+(* list / array: mean of the entries *)
+Lemma average_count_list n c dat l :
+  1 <= c ->
+  py_parameters_compute_average_cell_count (VArr KF [n; c] dat) (VList l)
+  = bind (bind (np_asarray (VList l)) np_sum) (fun s => py_truediv s (VInt (Z.of_nat (length l)))).
+Proof.
+  intros Hc. unfold py_parameters_compute_average_cell_count.
+  rewrite (average_head n c dat _ Hc). reflexivity.
+Qed.
+
+Lemma py_sum_ints_from (zs : list Z) a :
+  fold_left (fun acc x => bind acc (fun v => py_add v x)) (map VInt zs) (Ok (VInt a)) = Ok (VInt (fold_left Z.add zs a)).
+Proof.
+  revert a. induction zs as [|z zs IH]; intros a; [reflexivity|].
+  cbn [map fold_left bind]. unfold py_add at 2, arith. cbn [is_array orb as_num]. apply IH.
+Qed.
+Lemma py_sum_ints (zs : list Z) : py_sum (VList (map VInt zs)) = Ok (VInt (fold_left Z.add zs 0)).
+Proof. unfold py_sum. apply py_sum_ints_from. Qed.
+
+(* ---------- the estimator methods ---------- *)
+Section Methods.
+  Variable nnw : val -> val -> val -> val -> res val.
+  Variable ls_of : val -> res val.
+
+  (* the length-scale heuristic recomputes the distances with normalize=False whenever normalisation is on *)
+  Lemma ls_uses_raw_lemma ls_factor nn nz x :
+    norm_on nz = true ->
+    tsde_compute_ls nnw ls_of ls_factor nn nz x
+    = bind (nnw x VNone VNone (VBool false)) (fun raw => bind (ls_of raw) (fun ls => py_mul ls ls_factor)).
+  Proof.
+    intros H. unfold tsde_compute_ls.
+    destruct nz; try discriminate; try reflexivity.
+    destruct b; [|discriminate]. reflexivity.
+  Qed.
+
+  Lemma ls_without_normalisation ls_factor nn nz x :
+    norm_on nz = false ->
+    tsde_compute_ls nnw ls_of ls_factor nn nz x = bind (ls_of nn) (fun ls => py_mul ls ls_factor).
+  Proof.
+    intros H. unfold tsde_compute_ls. destruct nz; try discriminate; [reflexivity|]. destruct b; [discriminate|reflexivity].
+  Qed.
+
+  (* _compute_nn_distances hands x, d and the normalize setting to the routine (times = None) *)
+  Lemma compute_nn_wiring d nz x :
+    tsde_compute_nn_distances nnw d nz x
+    = bind (nnw x VNone d nz) (fun v => py_validation_validate_nn_distances v (VBool false)).
+  Proof. unfold tsde_compute_nn_distances. cbn [bind bind2]. destruct (nnw x VNone d nz); reflexivity. Qed.
+End Methods.
+
+(* BaseEstimator._prepare_attribute: compute only when the attribute is None (hand model, as in C15) *)
+Definition prepare_attr14 (given : val) (computed : res val) : res val :=
+  match given with VNone => computed | _ => Ok given end.
+
+Lemma explicit_nn_untouched_lemma nnw k n dat d nz x :
+  prepare_attr14 (VArr k [n] dat) (tsde_compute_nn_distances nnw d nz x) = Ok (VArr k [n] dat).
+Proof. reflexivity. Qed.
